@@ -419,35 +419,43 @@ def phaseCode : Char → Option Nat
   | 'L' => some 0 | 'S' => some 1 | 'g' => some 2 | 'l' => some 3 | 's' => some 4 | _ => none
 -- codes follow Python's string order 'L' < 'S' < 'g' < 'l' < 's' (`phase_tuple` sorts)
 
+/-- `extract_coefficients` for one term `t` (spaces already removed): split the coefficient off,
+(phase-tagged grammar: split the `,phase` off and check it), reject a repeated chemical, append.
+`none` = a malformed string the model does not cover. -/
+def termStep (x : Bool) (sign : Rat) (acc : Option (Except Err Terms)) (t : List Char) :
+    Option (Except Err Terms) :=
+  match acc with
+  | none => none
+  | some (.error e) => some (.error e)
+  | some (.ok terms) =>
+    match splitTerm x sign t with
+    | none => none
+    | some (c, id) =>
+      if x then
+        let ic := id.toList
+        if ic.length < 2 then none
+        else if ic.getD (ic.length - 2) ' ' == ',' then
+          let ph := ic.getD (ic.length - 1) ' '
+          if (phaseCode ph).isNone then some (.error .valueError) else
+          let id' := String.ofList (ic.take (ic.length - 2))
+          if terms.any (·.1 == id') then some (.error .valueError)
+          else some (.ok (terms ++ [(id', some ph, c)]))
+        else some (.error .valueError)
+      else
+        if terms.any (·.1 == id) then some (.error .valueError)
+        else some (.ok (terms ++ [(id, none, c)]))
+
+/-- one side of the arrow: `side.split('+')`, term by term -/
+def sideTerms (x : Bool) (sign : Rat) (side : List Char) (acc : Option (Except Err Terms)) :
+    Option (Except Err Terms) :=
+  (splitChar '+' side).foldl (termStep x sign) acc
+
 /-- `str2dct` of `_parse.py` (`x = false`) or `_xparse.py` (`x = true`).
 `none` = a malformed string the model does not cover. -/
 def str2terms (x : Bool) (s : String) : Option (Except Err Terms) :=
   let cs := s.toList.filter (· != ' ')
   match splitArrow cs with
-  | [left, right] =>
-    let go (sign : Rat) (side : List Char) (acc : Option (Except Err Terms)) : Option (Except Err Terms) :=
-      (splitChar '+' side).foldl (fun acc t =>
-        match acc with
-        | none => none
-        | some (.error e) => some (.error e)
-        | some (.ok terms) =>
-          match splitTerm x sign t with
-          | none => none
-          | some (c, id) =>
-            if x then
-              let ic := id.toList
-              if ic.length < 2 then none
-              else if ic.getD (ic.length - 2) ' ' == ',' then
-                let ph := ic.getD (ic.length - 1) ' '
-                if (phaseCode ph).isNone then some (.error .valueError) else
-                let id' := String.ofList (ic.take (ic.length - 2))
-                if terms.any (·.1 == id') then some (.error .valueError)
-                else some (.ok (terms ++ [(id', some ph, c)]))
-              else some (.error .valueError)
-            else
-              if terms.any (·.1 == id) then some (.error .valueError)
-              else some (.ok (terms ++ [(id, none, c)]))) acc
-    go 1 right (go (-1) left (some (.ok [])))
+  | [left, right] => sideTerms x 1 right (sideTerms x (-1) left (some (.ok [])))
   | _ => some (.error .valueError)
 
 /-- `get_phases` of `_xparse.py` on a string: the character after every comma. -/
